@@ -88,5 +88,17 @@ def main():
     v = res[1][0].viol["victim_ok"][0]
     assert v.get("chunk") is not None and chunk_replay(v) is True, v
     assert chunk_replay(dict(v, case={"x": "victim", "i": 99})) is False
+    # a task that vanishes (as when a killed worker takes the lock of the shared queue with it): the pool notices that
+    # everybody is idle while chunks are pending, rebuilds queues and workers, and finishes
+    import os
+    import tempfile
+    flag = os.path.join(tempfile.gettempdir(), "lose_one_%d" % os.getpid())
+    os.environ["VMC_POOL_SELFTEST_LOSE_ONE"], os.environ["VMC_POOL_STALL"] = flag, "2"
+    try:
+        res = dict((cid, r) for cid, r, h in run_chunks(_work, [[1], [1, 2], [1, 2, 3]], nproc=2, case_timeout=1.5))
+    finally:
+        del os.environ["VMC_POOL_SELFTEST_LOSE_ONE"], os.environ["VMC_POOL_STALL"]
+    assert res == {0: 1, 1: 2, 2: 3} and os.path.exists(flag), res
+    os.remove(flag)
     print("selftest ok: wikitextprocessor from", wikitextprocessor.__file__)
     return 0
